@@ -71,6 +71,9 @@ def _ranges_in(t):
     return out
 
 
+_PROGRAM = [None]
+
+
 def atom_of(c):
     """Canonical string for one canonical condition, or None if it is not a header-field condition."""
     if c[0] == "int":
@@ -86,8 +89,13 @@ def atom_of(c):
         return None
     if c[0] == "bool":
         t = c[1]
-        if t[0] == "call" and t[1].endswith("::any") and T.has_call(t, "get_options_raw"):
-            return "rest-any-nonzero" if c[2] else "rest-all-zero"
+        if t[0] == "call" and t[1].endswith(("::any", "::all")) and T.has_call(t, "get_options_raw"):
+            # some byte of the rest is non-zero: `any(|b| b != 0)` or `!all(|b| b == 0)`
+            qf = Q.quantified(_PROGRAM[0], t)
+            if qf is not None and T.fold_int(qf[3]) == 0 and (qf[0], qf[2]) in (("exists", "Ne"), ("forall", "Eq")):
+                some_nonzero = c[2] if qf[0] == "exists" else (not c[2])
+                return "rest-any-nonzero" if some_nonzero else "rest-all-zero"
+            return "rest-quantifier-not-understood"
         if t[0] == "call" and t[1].endswith("tcp_process::is_valid"):
             return "is_valid" if c[2] else "!is_valid"
         return None
@@ -174,6 +182,7 @@ def quirk_sites(P, b):
 
 
 def rule_R2(ctx):
+    _PROGRAM[0] = ctx.program
     P = ctx.program
     produced = {}
     nsites = 0
@@ -227,6 +236,7 @@ def _elem_index(e):
 
 
 def rule_R1_options(ctx):
+    _PROGRAM[0] = ctx.program
     P = ctx.program
     b = P.body(TP + "visit_tcp")
     S = T.Slicer(b, P)
@@ -352,6 +362,7 @@ def _mtu_nf(t, depth=0):
 
 
 def rule_R3_R4_R5(ctx):
+    _PROGRAM[0] = ctx.program
     P = ctx.program
     b = P.body(TP + "visit_tcp")
     S = T.Slicer(b, P)
@@ -427,9 +438,8 @@ def rule_R3_R4_R5(ctx):
         pl = os_["r"]["ops"][os_["r"]["fields"].index("pclass")]
         p = pl.get("m") or pl.get("c")
         okp = 0
-        for (db, dj, full) in S.defs().get(p["l"], []):
-            term = S.def_term(p["l"], db, dj, 0)
-            conds = Q.canon_conds(P, T.dom_conds(b, S, db))
+        for (term, conds, _site) in GV.guarded_values(P, b, S, p, oi, oj):
+            term = T.strip(term)
             emp = [c[2] for c in conds if c[0] == "bool" and c[1][0] == "call" and c[1][1].endswith("is_empty") and T.has_call(c[1], "::payload")]
             if term[0] == "agg" and emp:
                 if (term[3] == "Zero") == emp[-1]:
@@ -442,7 +452,14 @@ def rule_R3_R4_R5(ctx):
             ts_discr = [v["discr"] for v in P.adt("huginn_net_db::tcp::TcpOption")["variants"] if v["name"] == "TS"][0]
             ts_const = any(x[0] == "const" and x[3] and "TcpOption" in x[3] and isinstance(x[1], (bytes, bytearray)) and len(x[1]) >= 1 and x[1][0] == ts_discr
                            for x in T.walk(wa[3])) or any(x[0] == "agg" and x[3] == "TS" for x in T.walk(wa[3]))
-            ctx.check(T.has_call(wa[3], "::contains") and ts_const, "R5", "wsize:has_ts",
+            qf = Q.quantified(P, wa[3])
+            is_member = False
+            if qf is not None and qf[0] == "exists" and qf[2] == "Eq":
+                k_ = qf[3]
+                is_member = k_ == ("variant", "TS") or (k_[0] == "agg" and k_[3] == "TS") or \
+                    (k_[0] == "const" and k_[3] and "TcpOption" in k_[3] and isinstance(k_[1], (bytes, bytearray)) and len(k_[1]) >= 1 and k_[1][0] == ts_discr)
+                ts_const = is_member
+            ctx.check(is_member and ts_const, "R5", "wsize:has_ts",
                       "has_ts = olayout.contains(TS)", "timestamp flag for window classification is not olayout.contains(TS)", ctx.loc(b, oi))
     # per-family routing
     for fn, ver, ttlacc, olenfn in (("process_tcp_ipv4", "V4", "get_ttl", "calculate_ipv4_length"), ("process_tcp_ipv6", "V6", "get_hop_limit", "calculate_ipv6_length")):
@@ -755,7 +772,13 @@ def rule_R8(ctx):
     dbb = [x for x in P.bodies.values() if x.name == "format_tcp_display" and x.crate == "huginn_net_db"]
     if dbb:
         ref, rstars, _ = C06._skeleton_display(P, dbb[0])
-        ctx.check(ds == ref and dstars == rstars and not trunc, "R8", "observable:skeleton", "observed and database signatures print the same skeleton `%s`" % ref,
+        # the ways a Display impl walks a list (`,H` separator before every element but the first; `H,H` first element peeled off)
+        # are one form
+        import re as _re
+
+        def _lists(x):
+            return _re.sub(r"H?(?:,H)+", "L", x) if x else x
+        ctx.check(_lists(ds) == _lists(ref) and dstars == rstars and not trunc, "R8", "observable:skeleton", "observed and database signatures print the same skeleton `%s`" % ref,
                   "an observed signature prints `%s` (%d wildcards) where the database form is `%s` (%d)" % (ds, dstars, ref, rstars), ctx.loc(b))
     n = 0
     for blk, t in b.calls():
